@@ -59,7 +59,7 @@ def check_init(run, pkg, attrs, ex):
     fi = pkg.cls(CLS).methods["__init__"]
     fq = short(fi.qual)
     loc = fi.loc()
-    two_pi_L = ("bin", "/", ("bin", "*", C(2), ("mod", "numpy.pi")), L0)
+    two_pi_L = canon(("bin", "/", ("bin", "*", C(2), ("mod", "numpy.pi")), L0))
     # both arms: explicit qvector and default
     for explicit in (True, False):
         def assume(c):
@@ -89,7 +89,7 @@ def check_init(run, pkg, attrs, ex):
                 if t == ("sym", "qrange"):
                     return qr
                 return None
-            ok_nd = len(a) >= 1 and a[0] == nd
+            ok_nd = eqv(a[0], nd) if a else None
             run.ob("R-ALG", fq, f"{arm}:ndim", ok_nd, "generator is told the dimension of the positions", show(a[0])[:60] if a else "?",
                    witness=None if ok_nd else "wrong dimension", loc=loc)
             if len(a) >= 2:
@@ -99,10 +99,10 @@ def check_init(run, pkg, attrs, ex):
                 ok, how = S.decide_equal(g, ref)
                 run.ob("R-ALG", fq, f"{arm}:numofq", ok if not (ok is False and tr.atoms) else None, "number of integer steps = int(2 qrange / min(2 pi / L))",
                        sp.sstr(g)[:100], witness=None if ok is not False else how, loc=loc)
-            okp = len(a) >= 3 and a[2] == ("sym", "onlypositive")
+            okp = eqv(a[2], ("sym", "onlypositive")) if len(a) >= 3 else None
             run.ob("R-ALG", fq, f"{arm}:onlypositive", okp, "the onlypositive option is forwarded", show(a[2])[:40] if len(a) > 2 else "?",
                    witness=None if okp else "option ignored", loc=loc)
-        want = ("bin", "*", ("call", ".astype", (src, ("mod", "numpy.float64")), ()), ("sub", two_pi_L, ("tuple", (("mod", "numpy.newaxis"), ("slice", NONE, NONE, NONE)))))
+        want = canon(("bin", "*", ("call", ".astype", (src, ("mod", "numpy.float64")), ()), ("sub", two_pi_L, ("tuple", (("mod", "numpy.newaxis"), ("slice", NONE, NONE, NONE))))))
         ok = qv == want
         if not ok and qv is not None:
             # algebraic comparison with atoms n (integer vector) and per-axis 2 pi / L
@@ -125,7 +125,8 @@ def check_init(run, pkg, attrs, ex):
         run.ob("R-ALG", fq, f"{arm}:qvector", ok, "q = integer vector * 2 pi / L, axis by axis (frame 0 box)", show(qv)[:120] if qv else "?",
                witness=None if ok is not False else "wave vectors are not commensurate with the box axis by axis", loc=loc)
         qval = at.get("qvalue")
-        okq = qv is not None and qval == ("call", "numpy.linalg.norm", (qv,), (("axis", C(1)),))
+        from .grlib import is_rowwise_norm
+        okq = True if (qv is not None and qval is not None and is_rowwise_norm(qval) == qv) else (eqv(qval, ("call", "numpy.linalg.norm", (qv,), (("axis", C(1)),))) if qv is not None else None)
         run.ob("R-ALG", fq, f"{arm}:qvalue", okq, "|q| is the row-wise norm of the scaled wave vectors", show(qval)[:80] if qval else "?",
                witness=None if okq else "|q| computed from unscaled vectors / wrong axis", loc=loc)
     ok_tc = attrs.get("typecount") == TYPECOUNT and attrs.get("nparticle") == N_ and attrs.get("nsnapshots") == T_
